@@ -128,9 +128,9 @@ PROPS['C01'] = dict(layers=[D(P.p_c01, profile=dict(faults=0.4))], planned=['C01
 PROPS['C02'] = dict(layers=[D(P.p_c02_c03, P.p_c02_wire, profile=dict(faults=0.5))], planned=['C02_sound end-to-end (102 ⇒ every target commanded and answered ok)', 'C02_cli'])
 PROPS['C03'] = dict(layers=[D(P.p_c02_c03, P.p_c03_justified, profile=dict(faults=0.5))], planned=['C03_justified over whole runs', 'C03_no_memory'])
 PROPS['C04'] = dict(layers=[D(P.p_c04, P.p_c04_quit, P.p_c15)], planned=['C04_one_reply', 'C04_no_wedge', 'C04_tenure', 'C04_bound_partial'])
-PROPS['C06'] = dict(layers=[D(P.p_c04, P.p_c15, profile=dict(fatal=0.03, faults=1.5, maxclients=6), deaths=client_deaths), D(P.p_c04, P.p_c15, profile=dict(fatal=0.02, faults=0.1, quit=0.003, maxclients=3, calm=0.05), deaths=client_deaths, quick=(8, 2500), thorough=(32, 6000))], planned=['C06_total over lines >= CP_LINEMAX (203)', 'C06_reap'])
+PROPS['C06'] = dict(layers=[D(P.p_c04, P.p_c15, P.p_f23, profile=dict(fatal=0.03, faults=1.5, maxclients=6), deaths=client_deaths), D(P.p_c04, P.p_c15, profile=dict(fatal=0.02, faults=0.1, quit=0.003, maxclients=3, calm=0.05), deaths=client_deaths, quick=(8, 2500), thorough=(32, 6000))], planned=['C06_total over lines >= CP_LINEMAX (203)', 'C06_reap'])
 PROPS['C07'] = dict(layers=[D(P.p_c20, profile=dict(garbage=0.08, pF6=0.03, calm=0.25), deaths=device_deaths)], planned=['C07_no_abort assembled over whole runs', 'xmatch_used under ExpectBeforeSet'])
-PROPS['C08'] = dict(layers=[D(P.p_c08, P.p_c01, profile=dict(faults=0.5))], planned=['C08_refines without the nesting bound of the mirror (innerLoop 64)', 'composition over postPoll sequences with reconnects'])
+PROPS['C08'] = dict(layers=[D(P.p_c08, P.p_c01, profile=dict(faults=0.5))], planned=['composition of the refinement over postPoll sequences with reconnects'])
 PROPS['C09'] = dict(layers=[D(P.p_c09_write, P.p_c09_read, profile=dict(garbage=0.05))], planned=['cbuf_refines (index-level model of cbuf.c)', 'buffer capacity / overflow_drop'])
 PROPS['C10'] = dict(layers=[D(P.p_c10)], planned=['C10_head_only', 'C10_transcript', 'C10_fifo'])
 PROPS['C12'] = dict(layers=[D(P.p_c12, P.p_c12_disconnect, P.p_c04, profile=dict(pF6=0.02, calm=0.3))], planned=['C12_ioerr', 'C12_recover_partial'])
@@ -142,7 +142,7 @@ PROPS['C20'] = dict(layers=[D(P.p_c20, profile=dict(pF6=0.02, maxclients=6), lea
 PROPS['C15'] = dict(layers=[D(P.p_c15, P.p_c04, P.p_c04_quit, profile=dict(garbage=0.06, maxclients=6))], planned=['C15_stream over whole runs (needs a ghost record of bytes written in earlier passes)', 'cleanliness of the data-carrying lines through the hostlist mirror'])
 PROPS['C16'] = dict(layers=[libpm.LibPmLayer()], planned=['memory safety of the remaining C is observed under ASan, not proved'])
 PROPS['C17'] = dict(layers=[speclayer.SpecLayer()], planned=['specOK_sound: the static predicate implies no send reaches an undefined conversion and every $N read is a defined group, over the interpreter model'])
-PROPS['C11'] = dict(layers=[D(P.p_c11, profile=dict(maxclients=6))], planned=['C11_routing', 'C11_departure', 'C11_backpressure'])
+PROPS['C11'] = dict(layers=[D(P.p_c11, P.p_f23, profile=dict(maxclients=6))], planned=['C11_routing', 'C11_departure', 'C11_backpressure'])
 
 
 def all_layers():
